@@ -88,6 +88,18 @@ func init() {
 		}})
 }
 
+func init() {
+	reg(&PropSpec{ID: "C20", Title: "Frame mutators keep flags and body in step; option accessors consistent", DesignRef: "DESIGN.md §4 C20",
+		Groups: []Group{
+			{Funcs: `^frame\.NewFrame$|^\(\*frame\.Frame\)\.(Set|Request)[A-Za-z]+$`, OnlyCt: true},
+			{Funcs: `^\(\*message\.Startup\)\.[A-Za-z]+$`, OnlyCt: true},
+		},
+		Assume: []string{
+			"holding after every sequence of mutator calls is the induction that 'requires Inv / ensures Inv' on every mutator is; the link to 'still encodes and round-trips' is the precondition of the frame encoder (C01), not re-proved here",
+			"SetTracingId is specified for response frames and RequestTracingId for request frames, as their documentation states",
+		}})
+}
+
 // Select returns the functions (keys) of a property with their class filters.
 func (p *PropSpec) Select(w *World) map[string]*Group {
 	out := map[string]*Group{}
